@@ -1,4 +1,5 @@
 import TwistedProps.C13.Live
+import TwistedProps.C13.Life
 /-!
 C13 — callFromThread runs each call once, in the reactor thread, in per-thread order, promptly.
 
@@ -184,5 +185,203 @@ example :
 
 example : (rsteps Cfg.posix 5 (threadStep Cfg.posix 7 (threadStep Cfg.posix 7 initIdle))).ran = [⟨7, 0⟩] := by
   decide
+
+/-! ## the whole run: `stop()`, shutdown pending on a Deferred, `crash`, exit of `mainLoop`
+
+Model `TwistedModel/Reactor/ThreadQueueLife.lean`: the queue model above + the reactor's life cycle.
+Calls may do `reactor.stop()` or fire the Deferred a 'before shutdown' trigger returned (`LCfg.eff`:
+ANY assignment of such effects to calls); after `stop()` the reactor is still running
+(`alive` = `reactor.running`) until that Deferred has fired, and `callFromThread` must behave exactly as
+before.  Every theorem holds for every schedule, every `LCfg`, from a reactor that starts `running`. -/
+
+/-- `run()` was called: the queue model at its start, `_stopped = False`; the Deferred may or may not have fired -/
+def LStart (s0 : LState) : Prop := Start s0.base ∧ s0.phase = .running
+
+theorem inv_reachable_lifecycle (lc : LCfg) (sched : List Actor) (s0 : LState) (h0 : LStart s0) :
+    Inv (lrun lc sched s0).base := by
+  apply linv_run
+  rcases h0.1 with h | h <;> rw [h]
+  · exact inv_init
+  · exact inv_initIdle
+
+/-- **Per-thread FIFO, nothing lost, nothing duplicated — in every phase of the run** (before `stop()`,
+    while shutdown is pending, after `crash`, after `mainLoop` returned). -/
+theorem per_thread_fifo_lifecycle (lc : LCfg) (sched : List Actor) (s0 : LState) (h0 : LStart s0) (t : Nat) :
+    ((lrun lc sched s0).base.ran ++ pending (lrun lc sched s0).base).filter (byThread t)
+      = issueList t ((lrun lc sched s0).base.issued t) :=
+  (inv_reachable_lifecycle lc sched s0 h0).fifo t
+
+/-- **Accounting in every phase**: an issued call has run once or is pending once, never both; nothing else runs. -/
+theorem accounting_lifecycle (lc : LCfg) (sched : List Actor) (s0 : LState) (h0 : LStart s0) (c : Call) :
+    (lrun lc sched s0).base.ran.count c + (pending (lrun lc sched s0).base).count c
+      = if c.idx < (lrun lc sched s0).base.issued c.thread then 1 else 0 :=
+  accounting_of_inv _ (inv_reachable_lifecycle lc sched s0 h0) c
+
+theorem each_call_at_most_once_lifecycle (lc : LCfg) (sched : List Actor) (s0 : LState) (h0 : LStart s0)
+    (c : Call) : (lrun lc sched s0).base.ran.count c ≤ 1 := by
+  have := accounting_lifecycle lc sched s0 h0 c
+  split at this <;> omega
+
+/-- a producer thread's step never runs a call and never touches the life cycle -/
+theorem runs_in_reactor_thread_lifecycle (lc : LCfg) (t : Nat) (s : LState) :
+    (lthreadStep lc t s).base.ran = s.base.ran ∧ (lthreadStep lc t s).phase = s.phase ∧
+    (lthreadStep lc t s).fired = s.fired :=
+  ⟨runs_in_reactor_thread lc.cfg t s.base, rfl, rfl⟩
+
+/-- **No lost wake-up in any phase.**  Whatever `stop()` / shutdown have done so far: if the reactor is
+    asleep in `doIteration` while the queue is not empty, some thread is still inside `callFromThread`
+    (its `wakeUp` is still to come).  In particular "`stop()` called, shutdown pending, loop idle, call
+    queued, every `callFromThread` returned" is unreachable. -/
+theorem no_lost_wakeup_lifecycle (lc : LCfg) (sched : List Actor) (s0 : LState) (h0 : LStart s0)
+    (hb : blocked (lrun lc sched s0).base = true) (hq : (lrun lc sched s0).base.queue ≠ []) :
+    ∃ t, (lrun lc sched s0).base.pw t = true := by
+  have h := inv_reachable_lifecycle lc sched s0 h0
+  generalize (lrun lc sched s0).base = s at *
+  simp only [blocked, Bool.and_eq_true, beq_iff_eq] at hb
+  obtain ⟨hpc, hw⟩ := hb
+  have hu : unseen s ≠ [] := by simpa [unseen, hpc] using hq
+  rcases h.covered hu with h1 | h1
+  · omega
+  · exact h1
+
+/-- **Every call runs exactly once, in order, for as long as the reactor runs.**  Any schedule, any
+    effects, stopped at a point where every `callFromThread` has returned; then after `k ≥ mu` steps of
+    the reactor alone EITHER `reactor.running` has become false (the application fired the shutdown
+    Deferred) OR nothing is pending and every issued call has run exactly once, per thread in issue order. -/
+theorem each_call_runs_exactly_once_while_running (lc : LCfg) (sched : List Actor) (s0 : LState)
+    (h0 : LStart s0) (hq : quiet (lrun lc sched s0).base) (k : Nat) (hk : mu (lrun lc sched s0).base ≤ k) :
+    let s := lrun lc sched s0
+    let s' := lrsteps lc k s
+    alive s' = false ∨
+    (pending s'.base = [] ∧
+     (∀ c : Call, s'.base.ran.count c = if c.idx < s.base.issued c.thread then 1 else 0) ∧
+     (∀ t, s'.base.ran.filter (byThread t) = issueList t (s.base.issued t))) := by
+  intro s s'
+  have hinv : Inv s.base := inv_reachable_lifecycle lc sched s0 h0
+  have hinv' : Inv s'.base := linv_rsteps lc k s hinv
+  rcases ldrains lc k s hinv hq hk with hd | hp
+  · exact Or.inl hd
+  · right
+    have hi : s'.base.issued = s.base.issued := lissued_rsteps lc k s
+    refine ⟨hp, ?_, ?_⟩
+    · intro c
+      have := accounting_of_inv s'.base hinv' c
+      rw [hp, hi] at this
+      simpa using this
+    · intro t
+      have := hinv'.fifo t
+      rw [hp, hi] at this
+      simpa using this
+
+/-- **Calls issued after `stop()`, while shutdown is pending, run like any other** (the class of the
+    seeded regression).  If the reactor is running (in ANY phase: before `stop()`, `stop()` just called,
+    shutdown waiting for its Deferred), the Deferred has not fired and no call still to run fires it,
+    then after `k ≥ mu` reactor-only steps the reactor is STILL running, nothing is pending and every
+    issued call has run exactly once, in order — no timer, no I/O, no other event needed. -/
+theorem calls_run_while_shutdown_pending (lc : LCfg) (sched : List Actor) (s0 : LState)
+    (h0 : LStart s0) (hq : quiet (lrun lc sched s0).base) (ha : alive (lrun lc sched s0) = true)
+    (hnf : noFire lc (lrun lc sched s0)) (k : Nat) (hk : mu (lrun lc sched s0).base ≤ k) :
+    let s := lrun lc sched s0
+    let s' := lrsteps lc k s
+    alive s' = true ∧ pending s'.base = [] ∧
+    (∀ c : Call, s'.base.ran.count c = if c.idx < s.base.issued c.thread then 1 else 0) ∧
+    (∀ t, s'.base.ran.filter (byThread t) = issueList t (s.base.issued t)) := by
+  intro s s'
+  have hal : alive s' = true := alive_rsteps lc k s (inv_reachable_lifecycle lc sched s0 h0) ha hnf
+  rcases each_call_runs_exactly_once_while_running lc sched s0 h0 hq k hk with hd | hr
+  · rw [show lrsteps lc k (lrun lc sched s0) = s' from rfl, hal] at hd
+    cases hd
+  · exact ⟨hal, hr⟩
+
+/-- the reactor stops running only when the application lets it: without a `fire` it runs for ever -/
+theorem keeps_running_until_fired (lc : LCfg) (sched : List Actor) (s0 : LState) (h0 : LStart s0)
+    (ha : alive (lrun lc sched s0) = true) (hnf : noFire lc (lrun lc sched s0)) (k : Nat) :
+    alive (lrsteps lc k (lrun lc sched s0)) = true :=
+  alive_rsteps lc k _ (inv_reachable_lifecycle lc sched s0 h0) ha hnf
+
+/-- **`reactor.running` becomes false only at the application's request**: in every reachable state in
+    which the reactor no longer runs, a call whose body is `reactor.stop()` has run AND the shutdown
+    Deferred has fired.  (So the first alternative of `each_call_runs_exactly_once_while_running` is
+    never the reactor's own doing.) -/
+theorem stops_running_only_on_request (lc : LCfg) (sched : List Actor) (s0 : LState) (h0 : LStart s0)
+    (hd : alive (lrun lc sched s0) = false) :
+    (lrun lc sched s0).fired = true ∧ ∃ c ∈ (lrun lc sched s0).base.ran, lc.eff c = .stop := by
+  have h : Why lc (lrun lc sched s0) := by
+    apply why_run
+    rcases s0 with ⟨b, ph, fd⟩
+    have hp : ph = .running := h0.2
+    subst hp
+    exact ⟨by simp [alive], by simp⟩
+  refine ⟨h.dead hd, h.stopped ?_⟩
+  intro hr
+  simp [alive, hr] at hd
+
+/-- a call issued while the reactor is idle runs within five reactor steps IN EVERY PHASE in which the
+    reactor runs — also after `stop()`, with shutdown pending — whatever the call itself does -/
+theorem idle_call_runs_promptly_in_every_phase (lc : LCfg) (s : LState) (t : Nat) (ha : alive s = true)
+    (hpc : s.base.pc = .poll) (hw : s.base.waker = 0) (hq : s.base.queue = []) (hp : s.base.pw t = false) :
+    (lrsteps lc 5 (lthreadStep lc t (lthreadStep lc t s))).base.ran = s.base.ran ++ [⟨t, s.base.issued t⟩] := by
+  rcases s with ⟨⟨q, ran, w, pc, tot, cnt, iss, pw⟩, ph, fd⟩
+  dsimp only at hpc hw hq hp
+  subst hpc hw hq
+  have hw1 : wake lc.cfg 0 ≠ 0 := Nat.pos_iff_ne_zero.mp (wake_pos lc.cfg 0)
+  have hex : ¬ ph = .exited := by intro h; simp [alive, h] at ha
+  have hcr : ¬ ph = .crashed := by intro h; simp [alive, h] at ha
+  have hran : ∀ (e : Eff) (x : LState), (applyEff lc e x).base.ran = x.base.ran := by
+    intro e x
+    obtain ⟨w, _, he⟩ := applyEff_base lc e x
+    rw [he]; rfl
+  simp [lthreadStep, threadStep, hp, upd, lrsteps, lreactorStep, reactorStep, hw1, hex, hcr, hran]
+
+/-! ### non-vacuity (life cycle) -/
+
+/-- thread 0's call 0 does `reactor.stop()`, thread 1's call 1 fires the shutdown Deferred -/
+def demoEff (c : Call) : Eff :=
+  if c = ⟨0, 0⟩ then .stop else if c = ⟨1, 1⟩ then .fire else .none
+
+/-- the seeded scenario: `stop()` ran, shutdown is pending on the Deferred, the loop went idle; thread 1
+    then issues a call: reachable, quiet, the reactor is blocked until the wake-up — and `mu` reactor-only
+    steps later the call has run, the reactor still runs -/
+example :
+    let lc : LCfg := ⟨Cfg.posix, false, demoEff⟩
+    let s := lrun lc ([.thread 0, .thread 0] ++ List.replicate 12 .reactor) (linit false)
+    s.phase = .pending ∧ alive s = true ∧ lblocked s = true ∧ s.base.ran = [⟨0, 0⟩] ∧
+    (let s1 := lthreadStep lc 1 s
+     lblocked s1 = true ∧ s1.base.queue = [⟨1, 0⟩] ∧ s1.base.pw 1 = true ∧
+     (let s2 := lthreadStep lc 1 s1
+      lblocked s2 = false ∧ mu s2.base = 22 ∧
+      (lrsteps lc 22 s2).base.ran = [⟨0, 0⟩, ⟨1, 0⟩] ∧ (lrsteps lc 22 s2).phase = .pending ∧
+      (lrsteps lc 5 s2).base.ran = [⟨0, 0⟩, ⟨1, 0⟩])) := by decide
+
+/-- … and thread 1's next call fires the Deferred: it runs, `crash` runs, the loop makes one more
+    non-blocking `doIteration` and exits -/
+def demoCrashed : LState :=
+  lrun ⟨Cfg.posix, false, demoEff⟩ ([.thread 0, .thread 0] ++ List.replicate 12 .reactor ++ [.thread 1, .thread 1] ++
+      List.replicate 8 .reactor ++ [.thread 1, .thread 1] ++ List.replicate 5 .reactor) (linit false)
+
+example : demoCrashed.phase = .crashed ∧ alive demoCrashed = false ∧ demoCrashed.fired = true ∧
+    demoCrashed.base.ran = [⟨0, 0⟩, ⟨1, 0⟩, ⟨1, 1⟩] := by decide
+
+example : (lrsteps ⟨Cfg.posix, false, demoEff⟩ 2 demoCrashed).phase = .crashed ∧
+    (lrsteps ⟨Cfg.posix, false, demoEff⟩ 3 demoCrashed).phase = .exited := by decide
+
+/- a call issued after the exit stays queued (the reactor no longer runs): liveness is claimed only `while running` -/
+set_option maxRecDepth 8000 in
+example :
+    let lc : LCfg := ⟨Cfg.posix, false, demoEff⟩
+    let s := lrsteps lc 6 (lthreadStep lc 0 (lthreadStep lc 0 (lrsteps lc 3 demoCrashed)))
+    s.base.queue = [⟨0, 1⟩] ∧ s.base.ran.length = 3 := by decide
+
+/-- the Deferred fired BEFORE `stop()`: shutdown completes in the pass that ran `stop()` -/
+example :
+    let lc : LCfg := ⟨Cfg.posix, false, demoEff⟩
+    (lrun lc ([.thread 0, .thread 0] ++ List.replicate 6 .reactor) (linit true)).phase = .crashed ∧
+    (lrun lc ([.thread 0, .thread 0] ++ List.replicate 7 .reactor) (linit true)).phase = .exited := by decide
+
+/-- asyncio: `stop()` itself schedules one more handle -/
+example :
+    let lc : LCfg := ⟨Cfg.asyncio, true, demoEff⟩
+    let s := lrun lc [.thread 0, .thread 0, .reactor, .reactor, .reactor, .reactor, .reactor] (linitIdle false)
+    s.base.ran = [⟨0, 0⟩] ∧ s.phase = .stopping ∧ s.base.waker = 1 := by decide
 
 end TwistedProps.C13
